@@ -497,6 +497,13 @@ class Executor(Engine, ExprMixin, StmtMixin, CallMixin):
 
     def assume_inv(self, st, spec, generalize=False):
         c = self.cur_contract
+        for lemma in spec.get('assume', []):
+            # trusted lemma instances (facts about library functions stated over the loop's variables); never proved here
+            env = dict(self.top_env)
+            env.update({k: v for k, v in st.vars.items() if v is not UNBOUND})
+            wd, truth = self.eval_spec(st, lemma, c, env, self.top_pre)
+            self.assume(st, z3.Implies(wd, truth))
+            self.trust('assumed lemma: ' + lemma)
         for inv in spec.get('invariant', []):
             env = dict(self.top_env)
             env.update({k: v for k, v in st.vars.items() if v is not UNBOUND})
